@@ -7,7 +7,7 @@ CHECK = {
     "technique": "random DAG generator + sequential demand-driven reference interpreter; per-vertex run counters, "
                  "in-process dependency assertions, committer counters, wait() in-flight counter; hostile executors "
                  "(inplace, babylon pool 1-8 workers, shuffling harness executor), asynchronous processors, "
-                 "perturbation at af:* hook points; TSan/ASan/UBSan",
+                 "perturbation at af:* hook points; TSan/ASan/UBSan; producer/injector emit() rendezvous",
     "level_text": ("Runtime monitoring of the real anyflow engine: seeded random acyclic graphs (plain / on / unless / "
                    "essential dependencies, multi-emit vertices, trivial vertices, macro and vertex-API processors, "
                    "synchronous and asynchronous processors, planned failures, data injected before and during the "
